@@ -228,9 +228,12 @@ def diff_dicts(a, b, path="", config=None):
     for key in sorted(akeys & bkeys):
         avalue = a[key]
         bvalue = b[key]
-        # If types are the same and nonatomic, recurse
+        # If types are the same and nonatomic, recurse. A differ configured
+        # explicitly for the path (e.g. to ignore it) also applies to atomic values
         subpath = "/".join((path, key))
-        if type(avalue) is type(bvalue) and not config.is_atomic(avalue, path=subpath):
+        if type(avalue) is type(bvalue) and (
+                subpath in config.differs or
+                not config.is_atomic(avalue, path=subpath)):
             diffit = config.differs[subpath]
             dd = diffit(avalue, bvalue, path=subpath, config=config)
             if dd:
